@@ -26,6 +26,7 @@ import (
 
 	"github.com/tdewolff/minify/v2"
 	"github.com/tdewolff/minify/v2/js"
+	pjs "github.com/tdewolff/parse/v2/js"
 
 	"verifharness/h"
 )
@@ -713,6 +714,30 @@ func init() {
 			st.End()
 		}
 
+		// ---- stage corpus: literals of the fixed findings K-C01N-1..6 and cut-off boundaries ----
+		{
+			st := c.R.StartStage("corpus", "fixed regression literals (former failing inputs of K-C01N-1..6, cut-off boundaries of the radix conversions, IEEE underflow boundary) x 7 shapes x 2 configurations; same comparisons as stage literal")
+			lits := []string{"5.0", "5.", "1e2", "1e0", "10.0", "1n", "0n", "1_0n", "1e1_0", "1_0.5", "0xb", "0xB0", "0xe0", "0x0e1", "0xE", "0.0_0", "0b0_0", "0x0_0", "0e1_0",
+				"1e-400", "2e-324", "3e-324", "5e-324", "2.4703282292062327e-324", "2.4703282292062328e-324", "0.0000000000000000000000000000000000000001e-290",
+				"0xFFFFFFFFFFFFFn", "0xFFFFFFFFFFFFF", "0xDFFFFFFFFF", "0xDFFFFFFFFFn", "0xE000000000", "0xE000000000n", "0xe000000000n", "0Xd_fffffffffn", "0xFFFFFFFFFF", "0x00000000001",
+				"0b" + strings.Repeat("1", 63), "0b" + strings.Repeat("1", 63) + "n", "0b" + strings.Repeat("1", 64), "0b" + strings.Repeat("1", 64) + "n", "0B1" + strings.Repeat("0", 70) + "n",
+				"0o" + strings.Repeat("7", 21), "0o" + strings.Repeat("7", 21) + "n", "0o1" + strings.Repeat("7", 21), "0o1" + strings.Repeat("7", 21) + "n", "0O7_" + strings.Repeat("7", 21) + "n",
+				"9007199254740993", "9007199254740993n", "123456789012345678901234567890", "1e21", "1e-7", "0.0000001", "1000000", ".5e-9", "1.5e-20", "100e-10"}
+			infos, err := c01nInfos(lits)
+			if err != nil {
+				return err
+			}
+			for i, x := range infos {
+				if !x.isLit {
+					c.R.Add(h.Finding{Stage: st.Name, Kind: "diff", What: "corpus literal rejected by the Lean recogniser", Input: lits[i]})
+				}
+			}
+			if err := c01nRunLiterals(c, st, lits, infos, known); err != nil {
+				return err
+			}
+			st.End()
+		}
+
 		// ---- stage literal: exhaustive over short literals, public API ----
 		{
 			maxLen := c.N(5, 6)
@@ -794,6 +819,90 @@ func init() {
 				if err := c01nRunLiterals(c, st, lits[lo:hi], infos[lo:hi], known); err != nil {
 					return err
 				}
+			}
+			st.End()
+		}
+
+		// ---- stage keys: string property keys that look like numbers (outside the Lean model: node only) ----
+		{
+			maxLen := c.N(5, 6)
+			st := c.R.StartStage("keys", fmt.Sprintf("property key strings K over {0,1,5,9,.} with 1..%d characters plus long integers around 2^53 and 10^21: node evaluates x=new Proxy({},{get:(t,k)=>k})[\"K\"] and x=Object.keys({\"K\":1})[0] before and after js.Minify (the key must stay the same string); non-trivial = the program text changed", maxLen))
+			st.Exhaustive = true
+			var keys []string
+			var rec func(p string)
+			rec = func(p string) {
+				if p != "" {
+					keys = append(keys, p)
+				}
+				if len(p) == maxLen {
+					return
+				}
+				for _, ch := range "0159." {
+					rec(p + string(ch))
+				}
+			}
+			rec("")
+			keys = append(keys, "9007199254740991", "9007199254740992", "9007199254740993", "999999999999999", "1000000000000000", "9999999999999999",
+				"100000000000000000000", "1000000000000000000000", "123456789012345678901234567890", "1000000", "1.5000", "4294967295", "4294967296")
+			type kobs struct {
+				key, shape, in, out string
+			}
+			var obs []kobs
+			var exprs []string
+			for _, k := range keys {
+				for _, sh := range []struct{ name, expr string }{
+					{"index", `new Proxy({},{get:(t,k)=>k})["` + k + `"]`},
+					{"name", `Object.keys({"` + k + `":1})[0]`},
+				} {
+					out, errText, crash := c01nMinify(&js.Minifier{}, "x="+sh.expr)
+					if crash != "" {
+						c.R.Add(h.Finding{Stage: st.Name, Kind: "crash", What: crash, Input: "x=" + sh.expr})
+						continue
+					}
+					if errText != "" || !strings.HasPrefix(out, "x=") {
+						c.R.Add(h.Finding{Stage: st.Name, Kind: "diff", What: "js.Minify rejects the program: " + errText, Input: "x=" + sh.expr})
+						continue
+					}
+					st.Count("x="+sh.expr, out[2:] != sh.expr)
+					obs = append(obs, kobs{k, sh.name, sh.expr, out[2:]})
+					exprs = append(exprs, sh.expr, out[2:])
+				}
+			}
+			res, err := c01nNode(exprs)
+			if err != nil {
+				return err
+			}
+			canonical := func(k string) bool {
+				if len(k) == 0 || len(k) > 15 || (k[0] == '0' && len(k) > 1) {
+					return false
+				}
+				return strings.Trim(k, "0123456789") == ""
+			}
+			for i, o := range obs {
+				rin, rout := res[2*i], res[2*i+1]
+				if rin != "string:"+o.key {
+					c.R.Add(h.Finding{Stage: st.Name, Kind: "diff", What: "oracle program does not return the key: " + rin, Input: "x=" + o.in})
+					continue
+				}
+				if rin == rout {
+					continue
+				}
+				trig := ""
+				if pjs.AsDecimalLiteral([]byte(o.key)) && !canonical(o.key) {
+					// trigNumericKey: the key passes parse/v2/js.AsDecimalLiteral and is not a canonical integer below 10^15
+					if o.shape == "index" {
+						trig = "K-C01N-7"
+					} else {
+						trig = "K-C01N-8"
+					}
+				}
+				if trig != "" && known.has(trig) {
+					c01nStat("known/"+trig+"/"+o.shape, "x="+o.in)
+					c.R.ExcludedKnown++
+					continue
+				}
+				c01nStat("fail/key-"+o.shape, "x="+o.in)
+				c.R.Add(h.Finding{Stage: st.Name, Kind: "fail", What: fmt.Sprintf("key-%s: the property key %q becomes %s", o.shape, o.key, rout), Input: "x=" + o.in, Hex: h.HexS("x=" + o.in), Config: "Version=0", Impl: "x=" + o.out})
 			}
 			st.End()
 		}
